@@ -1440,10 +1440,42 @@ pub fn rename_variant(spec: &GSpec, t: &mut Tape) -> (GSpec, Vec<String>) {
             }
         }
     }
+    // names the recursive-ascent generator derives for helper nonterminals: the
+    // canonical name of `X?` / `X*` / `X+` with every non-alphanumeric character
+    // written as `_<hex>` (`N1?` -> `N1_3f`)
+    fn reps(k: &SymKind, spec: &GSpec, out: &mut Vec<String>) {
+        match k {
+            SymKind::Rep(inner, op) => {
+                if let SymKind::N(n) = &**inner {
+                    let hex = match op {
+                        RepOp::Question => "3f",
+                        RepOp::Star => "2a",
+                        RepOp::Plus => "2b",
+                    };
+                    let d = format!("{}_{}", spec.nts[*n].name, hex);
+                    if !out.contains(&d) {
+                        out.push(d);
+                    }
+                }
+                reps(inner, spec, out);
+            }
+            SymKind::Group(items) => items.iter().for_each(|x| reps(&x.kind, spec, out)),
+            SymKind::Macro(_, args) => args.iter().for_each(|x| reps(x, spec, out)),
+            _ => {}
+        }
+    }
+    for nt in &spec.nts {
+        for a in &nt.alts {
+            for sy in &a.syms {
+                reps(&sy.kind, spec, &mut derived);
+            }
+        }
+    }
     for i in 0..s.nts.len() {
         let annotated = s.nts[i].alts.iter().any(|a| a.prec.is_some());
-        if annotated {
-            // keep the annotated nonterminal's name: the derived names refer to it
+        let is_rep_operand = derived.iter().any(|d| d.starts_with(&format!("{}_", spec.nts[i].name)));
+        if annotated || is_rep_operand {
+            // keep the name: the derived names refer to it
             continue;
         }
         if !derived.is_empty() && t.chance(190) {
